@@ -881,6 +881,36 @@ func RuleCRound(c *core.Ctx) {
 			if !isRound {
 				problems = append(problems, "the number of digits is not the Round option")
 			}
+			// the formatted number leaves the function as it is (or through the
+			// package's own grouping helper): it is not cut, trimmed or glued
+			seenV := map[ssa.Value]bool{}
+			var follow func(v ssa.Value)
+			follow = func(v ssa.Value) {
+				if seenV[v] || v.Referrers() == nil {
+					return
+				}
+				seenV[v] = true
+				for _, r := range *v.Referrers() {
+					switch u := r.(type) {
+					case *ssa.Phi:
+						follow(u)
+					case *ssa.Slice:
+						problems = append(problems, "the formatted number is cut by a slice expression at "+p.Pos(u.Pos())+" (a sign or a digit can be lost)")
+					case *ssa.BinOp:
+						if u.Op == token.ADD {
+							problems = append(problems, "the formatted number is concatenated with other text at "+p.Pos(u.Pos()))
+						}
+					case *ssa.Call:
+						callee := u.Call.StaticCallee()
+						if callee != nil && !p.InModule(callee) && callee.Signature.Results().Len() > 0 {
+							if b, ok := callee.Signature.Results().At(0).Type().Underlying().(*types.Basic); ok && b.Kind() == types.String {
+								problems = append(problems, "the formatted number is rewritten by "+core.FuncName(callee)+" at "+p.Pos(u.Pos()))
+							}
+						}
+					}
+				}
+			}
+			follow(call)
 		default:
 			problems = append(problems, "decimal."+name+" in the number formatting path (expected only Div(1000) and StringFixed(Round), which rounds half away from zero)")
 		}
